@@ -16,7 +16,7 @@
 EXTENDS Naturals, Sequences, FiniteSets, TLC, Json
 
 CONSTANTS MaxFields, MaxLayers,
-          LeafKinds,        \* subset of {"int","str","dur","time","slice","map","arr","pint","parr"} (parr: an array of pointers, pkmap: a map keyed by pointers)
+          LeafKinds,        \* subset of {"int","str","dur","time","slice","map","arr","pint","parr"} (parr: an array of pointers, pkmap: a map keyed by pointers, mmap: a map of maps, pslice: a pointer to a slice)
           SkipKinds,        \* subset of {"dash","dashref","chan","func","unexp"} (dashref: a dials:"-" field holding a reference)
           StructKinds,      \* subset of {"struct","pstruct","emb"}
           InnerShapes,      \* shapes of nested structs
@@ -24,7 +24,7 @@ CONSTANTS MaxFields, MaxLayers,
           BUG_IndexDrift,   \* the overlay walk forgets to skip func fields
           BUG_PtrMerge      \* a set user pointer over a non-nil one is treated as a struct merge (pre-fix behaviour: panic)
 
-Nilable == {"slice", "map", "pint", "pkmap", "mmap"}       \* pkmap: a map keyed by pointers, mmap: a map of maps
+Nilable == {"slice", "map", "pint", "pkmap", "mmap", "pslice"}       \* pkmap: a map keyed by pointers, mmap: a map of maps
 TopFields == [k : LeafKinds \cup SkipKinds] \cup {[k |-> sk, sub |-> s] : sk \in StructKinds, s \in InnerShapes}
 
 Nil == [t |-> "nil"]
@@ -33,6 +33,7 @@ Unset == [t |-> "unset"]
 Zero == [t |-> "zero"]
 Id(x) == [t |-> "id", v |-> x]          \* the value layer x gave this leaf (0: the caller's default)
 Empty(x) == [t |-> "empty", v |-> x]    \* set, but an empty slice / map
+SetZero(x) == [t |-> "szero", v |-> x]  \* set by layer x, explicitly, to the zero value of its type (zero time, 0, "")
 St(s) == [t |-> "st", f |-> s]
 IsStruct(f) == f.k \in {"struct", "pstruct", "emb"}
 Skipped(f)  == f.k \in {"dash", "dashref", "chan", "func", "unexp"}
@@ -75,6 +76,7 @@ LayersOf(pshape, id) ==     \* the values a source may return for a pointerified
            rest == LayersOf(Tail(pshape), id)
            mine == IF IsStruct(f) THEN {Unset} \cup {St(l) : l \in LayersOf(f.sub, id)}
                    ELSE IF f.k \in {"slice", "map", "pkmap", "mmap"} THEN {Unset, Id(id), Empty(id)}
+                   ELSE IF f.k \in {"int", "str", "time"} THEN {Unset, Id(id), SetZero(id)}
                    ELSE {Unset, Id(id)}
        IN {<<m>> \o r : m \in mine, r \in rest}
 
